@@ -167,6 +167,24 @@ class C02(Prop):
                     s = compare(acc, rec, t, dev_id, key, issued[0], int(round(now)), world)
                     if s is not None and args:
                         acc.sig(env.sig(s, self._argclass(op, args)))
+                if t == 1:
+                    # the host zone changes while the process lives, to one easily mistaken for the first (same offset right now,
+                    # or the same abbreviations): the same schedule requests again are encoded in the new zone's local time
+                    alike = clock.confusable(zone, now, env.ZONES)
+                    if alike:
+                        z2 = alike[i % len(alike)]
+                        clock.set_zone(z2)
+                        world2 = {"zone": z2, "now": now}
+                        for op, args in [(o, a) for o, a in plan if o == "create_schedule" and a is not None][:3]:
+                            n_sessions = len(cl.conn.sessions)
+                            rec = await cl.run(op, args)
+                            acc.ev()
+                            acc.count("create_schedule_again_after_a_zone_change")
+                            issued = cl.conn.sessions[n_sessions:]
+                            ops.MUTATED.clear()
+                            if len(issued) == 1:
+                                compare(acc, rec, t, dev_id, key, issued[0], int(round(now)), world2)
+                        clock.set_zone(zone)
                 for name, rc in self.recs.items():
                     rc.drain()  # judged by C01 / C12
             finally:
